@@ -12,14 +12,16 @@ import (
 )
 
 var cmds = map[string]func([]string) int{
-	"mbox":    mbox.Main,
-	"b2f-c01": b2f.MainC01,
-	"b2f-c02": b2f.MainC02,
-	"b2f-c04": b2f.MainC04,
-	"b2f-c05": b2f.MainC05,
-	"b2f-c16": b2f.MainC16,
-	"posrep":  posrep.Main,
-	"url":     urlh.Main,
+	"mbox":          mbox.Main,
+	"b2f-c01":       b2f.MainC01,
+	"b2f-c02":       b2f.MainC02,
+	"b2f-c04":       b2f.MainC04,
+	"b2f-c05":       b2f.MainC05,
+	"b2f-c16":       b2f.MainC16,
+	"b2f-c03":       b2f.MainC03,
+	"b2f-c03-child": b2f.MainC03Child,
+	"posrep":        posrep.Main,
+	"url":           urlh.Main,
 }
 
 func main() {
